@@ -15,6 +15,9 @@ def handle (args : List String) : Option String :=
   | "servex" :: rest => do
     let o ← handleServeX rest
     pure s!"{o.invs.length} {encWritten o.written} {encStop o.result}"
+  | "servewm" :: rest => do
+    let o ← handleServeWM rest
+    pure s!"{encWritten o.written} {encStop o.result}"
   | "servew" :: rest => do
     let o ← handleServeW rest
     pure s!"{o.invs.length} {encWritten o.written} {encStop o.result}"
